@@ -8,6 +8,38 @@ OBS_TEMPS = [0, 1, 2, 4, 5, 11, 12]
 CELL_OF = {0: 4, 1: 5, 2: 6, 4: 7, 5: 8, 11: 9, 12: 10}
 
 
+def boundary_imms(w):
+    """immediates at the encoding boundaries of the x86 instruction set (imm8 / imm32 sign extension,
+    byte and dword wrap) — substituted for the generic immediate 5 of a shape"""
+    M = 1 << w
+    vals = [127, 128, 129, 200, 255, 256, 32767, 32768, 65535, 65536, (1 << 31) - 1, 1 << 31, (1 << 32) - 1, 1 << 32, (1 << 63) - 1, 1 << 63]
+    out = []
+    for v in vals:
+        for x in (v, M - v):
+            if 5 < x < M - 5 and x not in out:
+                out.append(x)
+    return out
+
+
+def with_boundary_imms(shapes, w, stride=1, phase=0):
+    """(shape, variants) list: every shape with all liveness variants, plus, for shapes whose
+    immediate is the generic 5, copies with each boundary immediate (exact liveness only)"""
+    out = [(sh, ("exact", "alllive", "deadsrc")) for sh in shapes]
+    k = 0
+    for sh in shapes:
+        body = sh[:-2] if sh.endswith(" F") else sh
+        toks = body.split()
+        if "#" in toks and toks[toks.index("#") + 1] == "5":
+            for v in boundary_imms(w):
+                k += 1
+                if (k + phase) % stride:
+                    continue
+                t = list(toks)
+                t[t.index("#") + 1] = str(v)
+                out.append((" ".join(t) + (" F" if sh.endswith(" F") else ""), ("exact",)))
+    return out
+
+
 def temps_in(toks):
     out = []
     i = 0
@@ -63,11 +95,11 @@ def run_forms(res, backends, widths=(8, 16, 32, 64), sample=None, max_report=4):
         if sample:
             shapes = [s for i, s in enumerate(shapes) if (i * 7919 + res.seed) % sample == 0]
         tests = []
-        for sh in shapes:
+        for sh, variants in with_boundary_imms(shapes, w, stride=max(1, (sample or 1) // 2), phase=res.seed):
             fused = sh.endswith(" F")
             body = sh[:-2] if fused else sh
-            for variant in ("exact", "alllive", "deadsrc"):
-                for big in ((False, True) if "#" in body and w >= 32 else (False,)):
+            for variant in variants:
+                for big in ((False, True) if "#" in body and w >= 32 and len(variants) > 1 else (False,)):
                     tests.append((build(body, w, rng, variant, big), fused, body, variant))
         stats["forms"] += len(shapes)
         mlines = ["bcmem|%d|0|10|%s" % (w, t[0]) for t in tests]
@@ -107,9 +139,9 @@ def run_x86_forms(res, widths=(8, 16, 32, 64), sample=None, max_report=4):
         if sample:
             shapes = [s for i, s in enumerate(shapes) if (i * 7919 + res.seed) % sample == 0]
         tests = []
-        for sh in shapes:
-            for variant in ("exact", "alllive", "deadsrc"):
-                for big in ((False, True) if "#" in sh and w >= 32 else (False,)):
+        for sh, variants in with_boundary_imms(shapes, w, stride=max(1, (sample or 1) // 2), phase=res.seed):
+            for variant in variants:
+                for big in ((False, True) if "#" in sh and w >= 32 and len(variants) > 1 else (False,)):
                     prog, instr, idx = build(sh, w, rng, variant, big, want_instr=True)
                     tests.append((sh, variant, big, prog, instr, idx))
         outs = C.run_lines(hv, ["mcinstr|%d|%d|%s" % (w, t[5], t[3]) for t in tests])
